@@ -236,3 +236,18 @@ Proof.
   rewrite Hlen, CE in A3. assert (s' = tail) by congruence. subst s'. exact A4.
 Qed.
 Print Assumptions C07_source_ts_read_subset.
+
+(* sbdf_ts_skip from the source (a zeroed flag buffer, sbdf_ts_read with that subset, sbdf_ts_destroy, free): for EVERY byte
+   stream, every table metadata struct and EVERY allocation schedule the call returns with every block it allocated in the cell
+   heap released again; without allocation failures its status is the status of the L1 model's ts_skip and, on success, the
+   stream stands exactly where the model's ts_skip leaves it - which by the model theorem ts_skip_exact
+   is where a full read of the table slice ends (C07_subset_read). *)
+Theorem C07_source_ts_skip : forall rf fo k sx m (h : ImpFactsCells.heap) tmb n, Forall byte sx -> 0 <= n <= 715827882 -> cell_get h tmb 1 = Some (VInt n) ->
+  exists f0, forall f, (f0 <= f)%nat -> exists st fin,
+    callC prog_env f prog_sbdf_ts_skip [VPtr rf fo; VCell tmb 0] m k sx h = OReturn (VInt st) fin /\ prefix_of m (inb fin) /\
+    (exists j, Imp.lookup cells_var (vars fin) = Some (VHeap (h ++ nones j))) /\
+    (k < 0 -> match Slice.ts_skip false None n sx with
+              | Ok (_, sM) => st = SBDF_OK /\ Imp.lookup strm_var (vars fin) = Some (VBytes sM)
+              | Err e => st = e end).
+Proof. exact ts_skip_source. Qed.
+Print Assumptions C07_source_ts_skip.
